@@ -62,7 +62,11 @@ macro_rules! convert_float {
 
         // combine regime, exponent, mantissa and arithmetic bitshift for 11..110em or 00..001em
         let mut regime_exponent_mantissa = regime_bits | exponent_bits | mantissa;
-        regime_exponent_mantissa >>= ((k + 1).abs() as u32) + signbit_e; // arithmetic bitshift
+        let shift = ((k + 1).abs() as u32) + signbit_e;
+        // mantissa bits shifted out on the right still take part in rounding (sticky bit)
+        let sticky = (mantissa & (((1 as BInt) << shift) - 1)) != 0;
+        regime_exponent_mantissa >>= shift; // arithmetic bitshift
+        regime_exponent_mantissa |= sticky as BInt;
         regime_exponent_mantissa &= (BUInt::MAX >> 1) as BInt; // remove possible sign bit from arith shift
 
         // round to nearest of the result
